@@ -9,7 +9,7 @@ func init() {
 			{Name: "H_C03_step", Tier: "quick", What: "histories of 2..4 operations over Add(fresh) / Add(existing = replace) / Remove / Flush on 2 ids and 3 texts (empty, repeated tokens, full-width + punctuation): representation invariant (numDocs, lengths, totals, avg, tf, postings, nothing left of replaced texts; removed documents counted until Flush) and the search answer against a reference corpus; k symbolic", Covers: []string{"ran"}},
 			{Name: "H_C03_many", Tier: "quick", What: "12 documents matching the query (one removed) — more than the default k=10 — k over all of int or left at the default", Covers: []string{"more-than-default-k"}},
 			{Name: "H_C03_tokens", Tier: "quick", What: "tokens = UAX#29 segments of the NFKC-normalised lower-cased text: 5 fixed expectations through the real libraries", Covers: []string{"ran"}},
-			{Name: "H_C03_multi", Tier: "quick", What: "two queries combined by sum / max / mean (k covering every match)", Covers: []string{"ran"}},
+			{Name: "H_C03_multi", Tier: "quick", What: "two, three or four queries (the same string twice, multi-token queries) combined by sum / max / mean (k covering every match): the rule is applied once over all per-query scores of a document", Covers: []string{"ran"}},
 			{Name: "H_C03_step_t", Tier: "thorough", What: "histories of 2..3 operations on 3 ids, 6 texts (non-ASCII, ligature, whitespace runs), 6 queries, id filter", Covers: []string{"ran"}},
 		},
 		Bounds:      []string{"<=4 documents, <=2 query terms with symbolic counts; histories <=3 (4 thorough) operations over a menu of concrete texts", "k over all of int; id restriction from a menu"},
